@@ -58,7 +58,9 @@ var c19Paths = []string{
 // 5 {f,g}+accessor, 6 the SHARED config object (f, possibly rebound by an earlier operation),
 // 7 two Config arguments: the shared object and a fresh {f', h, g}, 8 a by-value COPY of the shared
 // object on which SetAccessorMode was called after copying
-const c19NumCfg = 9
+// 9 the first element of a two-element Config slice the history owns, passed as slice[:1]...,
+// 10 the second element of that slice, passed as a single argument
+const c19NumCfg = 11
 
 // kinds 7 and 8 are exercised with the paths that can observe them (plain, f, g)
 func c19OpEnabled(op int) bool {
@@ -109,6 +111,29 @@ func c19Config(kind int, shared *jsonpath.Config) []jsonpath.Config {
 	return []jsonpath.Config{c}
 }
 
+// c19SliceConfig: kinds 9 and 10 use a Config slice that lives as long as the history.
+func c19SliceConfig(kind int, s *c19State) []jsonpath.Config {
+	if s.cfgSlice == nil {
+		var a, b jsonpath.Config
+		a.SetFilterFunction("f", c19F)
+		b.SetFilterFunction("f", c19F2)
+		b.SetAggregateFunction("g", c19G)
+		b.SetAccessorMode()
+		s.cfgSlice = []jsonpath.Config{a, b}
+	}
+	if kind == 9 {
+		return s.cfgSlice[:1] // spare capacity behind it: the second element
+	}
+	return []jsonpath.Config{s.cfgSlice[1]}
+}
+
+func c19ConfigFor(kind int, s *c19State) []jsonpath.Config {
+	if kind >= 9 {
+		return c19SliceConfig(kind, s)
+	}
+	return c19Config(kind, &s.shared)
+}
+
 var c19Probes = []string{`{"a":1,"b":[1,2]}`, `[{"a":1,"b":1},{"a":2},3]`, `{"a":{"b":[5]}}`, `[1,2]`}
 
 func c19Fingerprint(f func(interface{}) ([]interface{}, error)) string {
@@ -148,10 +173,31 @@ func c19Core(op int) bool {
 	return false
 }
 
+// c19RetrieveOnce renders the outcome of Retrieve(path, first probe document, config...).
+func c19RetrieveOnce(path string, cfgs []jsonpath.Config) (out string) {
+	defer func() {
+		if e := recover(); e != nil {
+			out = fmt.Sprint("panic:", e)
+		}
+	}()
+	var probe interface{}
+	json.Unmarshal([]byte(c19Probes[0]), &probe)
+	rv, err := jsonpath.Retrieve(path, probe, cfgs...)
+	if err != nil {
+		return impl.ErrType(err) + ":" + err.Error()
+	}
+	if vals, isAcc := impl.Unwrap(rv); isAcc && len(rv) > 0 {
+		return "accessors" + show(vals)
+	}
+	return show(rv)
+}
+
 // c19State is the mutable state a history carries.
 type c19State struct {
 	shared  jsonpath.Config
 	rebound bool
+	// cfgSlice: a two-element Config slice owned by the history (kinds 9 and 10)
+	cfgSlice []jsonpath.Config
 	funcs   []func(interface{}) ([]interface{}, error)
 	prints  []string
 }
@@ -190,10 +236,10 @@ func c19Apply(s *c19State, op int) (outcome, refKey string) {
 			refKey = fmt.Sprintf("%d/3", pi) // the shared object now holds f' only: same as config kind 3
 		} else if ck == 6 {
 			refKey = fmt.Sprintf("%d/1", pi)
-		} else if ck > 6 && s.rebound {
+		} else if (ck == 7 || ck == 8) && s.rebound {
 			refKey += "r" // reference: fresh process, rebind, then this operation
 		}
-		pr := impl.ParseN(c19Paths[pi], c19Config(ck, &s.shared)...)
+		pr := impl.ParseN(c19Paths[pi], c19ConfigFor(ck, s)...)
 		switch {
 		case pr.Panic != "":
 			return "panic:" + pr.Panic, refKey
@@ -205,7 +251,9 @@ func c19Apply(s *c19State, op int) (outcome, refKey string) {
 		fp := c19Fingerprint(pr.F)
 		s.funcs = append(s.funcs, pr.F)
 		s.prints = append(s.prints, fp)
-		return "ok " + fp, refKey
+		// the one-shot wrapper with the same arguments (it parses again: a cache in front of it
+		// must not confuse Configs either)
+		return "ok " + fp + " | Retrieve: " + c19RetrieveOnce(c19Paths[pi], c19ConfigFor(ck, s)), refKey
 	}
 	if op == c19NumParse() {
 		s.shared.SetFilterFunction("f", c19F2)
@@ -355,7 +403,7 @@ func c19References() (map[string]string, error) {
 				continue
 			}
 			for _, rebound := range []string{"", "r"} {
-				if rebound == "r" && ck < 7 {
+				if rebound == "r" && ck != 7 && ck != 8 {
 					continue
 				}
 				out, err := exec.Command(os.Args[0], "-c19ref", fmt.Sprint(pi), fmt.Sprint(ck), rebound).Output()
